@@ -16,8 +16,6 @@ import (
 	"sync"
 	"sync/atomic"
 	"time"
-
-	"github.com/nsqio/nsq/verifharness/hlib"
 )
 
 type streamRec struct {
@@ -194,6 +192,20 @@ func garbage(r *rand.Rand) []byte {
 // run one stream against env e (streams of one env run one after the other: /stats deltas are exact)
 func runStream(e *Env, kind, sid string, b []byte, r *rand.Rand) (*streamRec, error) {
 	rec := &streamRec{Sid: sid, Kind: kind, Bytes: b, Events: Classify(b, e.L)}
+	// an ephemeral topic that is both subscribed and published to disappears (with its counters) when the
+	// connection ends: what it took cannot be read from /stats afterwards
+	subs := map[string]bool{}
+	for _, ev := range rec.Events {
+		if ev.Cmd.Op == "SUB" && strings.HasSuffix(ev.Topic, "#ephemeral") {
+			subs[ev.Topic] = true
+		}
+	}
+	for _, ev := range rec.Events {
+		if isPub(ev.Cmd.Op) && subs[ev.Topic] {
+			rec.Events = append(rec.Events, CEvent{Opaque: true})
+			break
+		}
+	}
 	total := func() (int64, []string, error) {
 		ts, err := e.AllTopics()
 		if err != nil {
@@ -245,8 +257,8 @@ func runStream(e *Env, kind, sid string, b []byte, r *rand.Rand) (*streamRec, er
 			v := string(f.data)
 			if strings.HasPrefix(v, "{") && strings.Contains(v, `"max_rdy_count"`) {
 				v = "JSON"
-			} else if len(v) > 40 {
-				v = v[:40]
+			} else if v != "OK" && v != "CLOSE_WAIT" {
+				v = fmt.Sprintf("other:%x", []byte(v[:min(len(v), 20)]))
 			}
 			rec.Frames = append(rec.Frames, map[string]interface{}{"t": "resp", "v": v})
 		case 1:
@@ -353,7 +365,7 @@ func cmdFuzz(args []string) int {
 		rep.Inconclusive = append(rep.Inconclusive, &Mismatch{Kind: "timeout", What: firstErr.Error()})
 	}
 	sort.Slice(recs, func(i, j int) bool { return recs[i].Sid < recs[j].Sid })
-	out, err := hlib.NewNDJSON(*outPath)
+	out, err := newNDJSON(*outPath)
 	if err != nil {
 		return die(err)
 	}
